@@ -158,3 +158,11 @@ Proof.
   { intros i H. rewrite mem_single in H. apply N.eqb_eq in H. subst. reflexivity. }
   split; [exact P|]. split; [exact S|]. apply fixup_child_ok; [exact P|exact S|apply sub_refl].
 Qed.
+
+(* ---------- remove_empty (model: Topo/Remove.v, tied to the C code at the phase boundary 3 -> 4) ---------- *)
+From HV Require Import Topo.Remove Topo.RemoveProofs.
+
+(* after remove_empty no childless object with an empty cpuset (normal) or nodeset (memory) remains *)
+Theorem no_empty_leaf_remains : forall o r, fst (remove_empty o) = Some r -> NoEmptyLeaf r.
+Proof. exact remove_empty_no_empty_leaf. Qed.
+Print Assumptions no_empty_leaf_remains.
